@@ -211,3 +211,24 @@ Example C08_example_axes :
   /\ validate_consistent_axes [m1; {| ins := [A (s "x") [Some (s "j"); None]]; outs := [A (s "z") [Some (s "j")]] |}]
      = Err ValueError.
 Proof. vm_compute. repeat split; reflexivity. Qed.
+
+From Verif Require Import Proofs.IndexOrder.
+
+(* "row-major" pointwise: two in-range positions have the same linear index only if they are the same position, and the
+   linear index is smaller exactly when the position is lexicographically smaller (first index most significant) -
+   so no two iterations write one output position, for shapes of every rank and size *)
+Theorem C08_linear_index_injective_lexicographic : forall sh a b,
+  in_bounds sh a = true -> in_bounds sh b = true ->
+  (ravel sh a = ravel sh b -> a = b)
+  /\ (lex_lt a b <-> ravel sh a < ravel sh b).
+Proof.
+  intros sh a b Ha Hb.
+  exact (conj (ravel_inj sh a b Ha Hb) (conj (ravel_lex_mono sh a b Ha Hb) (ravel_lt_lex sh a b Ha Hb))).
+Qed.
+Print Assumptions C08_linear_index_injective_lexicographic.
+
+(* non-vacuity: in shape (2, 3), (0, 2) < (1, 0) lexicographically and 2 < 3 linearly *)
+Example C08_example_lexicographic :
+  in_bounds [2; 3] [0; 2] = true /\ in_bounds [2; 3] [1; 0] = true /\ lex_lt [0; 2] [1; 0]
+  /\ ravel [2; 3] [0; 2] = 2 /\ ravel [2; 3] [1; 0] = 3.
+Proof. cbn. repeat split; auto. Qed.
